@@ -371,7 +371,7 @@ CODE_CLASSES = {
 }
 
 
-def c10_table():
+def c10_table(cfg=None):
     """incoming type x code class x token known/unknown x unicast/multicast local address"""
     scripts = []
     for mtype in ("CON", "NON", "ACK", "RST"):
@@ -450,6 +450,69 @@ def c10_table():
             ev = [submit(1000, 0, 9, rel=rel, mc=True, mtype=mtype)]
             ev.append(far_end(ev))
             scripts.append({"events": ev, "rules": [], "draws": [], "tag": f"to-multicast:{rel}:{mtype}"})
+    scripts += c10_token_reuse((cfg or {}).get("emptyAckDelay", 104857)) + c10_on_exchange()
+    return scripts
+
+
+def c10_token_reuse(EAD):
+    """a second request on the token of a confirmable request that is not acknowledged yet (the client re-used
+    the token, e.g. after a restart): the first one still has to be acknowledged exactly once under its own
+    message ID, the response to the second one must not leave under the first one's ID; the client goes on
+    retransmitting the first request"""
+    scripts = []
+    for second in ("CON", "NON"):
+        for gap in (1000, EAD - 1000, EAD + 1000):
+            for speed in ("fast", "slow", "never"):
+                for other_remote in (False, True):
+                    t = 5000
+                    ev = [request_in(t, 0, 100, "aa", mtype="CON", body=1)]
+                    ev.append(request_in(t + gap, 1 if other_remote else 0, 101, "aa", mtype=second, body=2))
+                    if speed != "never":
+                        ev.append(respond(t + gap + (2000 if speed == "fast" else 3 * EAD), 1, body=7))
+                    # the peer retransmits the first request
+                    for k, dt in enumerate((2 * M, 6 * M)):
+                        ev.append(request_in(t + dt, 0, 100, "aa", mtype="CON", body=1))
+                    ev.sort(key=lambda e: e[1])
+                    ev.append(far_end(ev))
+                    rules = [{"remote": r, "mtype": "CON", "nth": 1, "do": "ack", "after": 700} for r in (0, 1)]
+                    scripts.append({"events": ev, "rules": rules, "draws": [],
+                                    "tag": f"token-reuse:{second}:{gap}:{speed}:{'other' if other_remote else 'same'}"})
+    return scripts
+
+
+def is_misfit(mtype, code):
+    """RFC 7252 table 1: which code classes may travel on which message type"""
+    if code == 0:
+        return mtype == "NON"
+    if 1 <= code < 32:
+        return mtype in ("ACK", "RST")
+    if 64 <= code < 192:
+        return mtype == "RST"
+    return True
+
+
+def c10_on_exchange():
+    """every type x code class aimed at the message ID of a confirmable request of ours that is in flight (and,
+    for the duplicate table, followed by a genuine confirmable request of the peer under that very ID): what does
+    not fit must change nothing -- props/C10.py also runs each script without its misfits and compares"""
+    scripts = []
+    for mtype in ("CON", "NON", "ACK", "RST"):
+        for cname, code in CODE_CLASSES.items():
+            for tok in ("21", "77"):
+                for follow in (False, True):
+                    ev = [submit(1000, 0, 0, rel=True)]
+                    t = 500000
+                    ev.append(["R", t, 0, False, mtype, code, 4096, "-" if code == 0 else tok, None, 4])
+                    srv = 0
+                    if 1 <= code < 32 and mtype in ("CON", "NON"):
+                        ev.append(respond(t + 1000, srv, body=6))
+                        srv += 1
+                    if follow:
+                        ev.append(request_in(t + 300000, 0, 4096, "c7", mtype="CON", body=3))
+                        ev.append(respond(t + 301000, srv, body=8))
+                    ev.append(far_end(ev))
+                    scripts.append({"events": ev, "rules": [], "mid": 4096, "draws": [2 * M + 11],
+                                    "tag": f"on-exchange:{mtype}:{cname}:{tok}:{'follow' if follow else 'alone'}"})
     return scripts
 
 
